@@ -45,6 +45,11 @@ const tableSQL = `SELECT SUM(a) AS sa, SUM(b) AS sb, SUM(c) AS sc, MIN(a) AS mna
  AVG(a) AS aa, AVG(b) AS ab, AVG(c) AS ac, PERCENTILE(BOUNDED(a, 0, 8), 90, 0, 10, 1) AS pa
  FROM %s GROUP BY d, g, n, flag, period(1s)`
 
+const longTableSQL = `SELECT SUM(a) AS sa, MAX(b) AS mxb FROM in_long GROUP BY k, period(1s)`
+
+const longKeys = 12
+const longSpread = 3000 // seconds between the first and the last point of a key
+
 // leaderStub is the rpcserver.DB of the "leader" end of the remote-query stream: it only
 // collects the handlers that HandleRemoteQueries registers.
 type leaderStub struct {
@@ -70,6 +75,7 @@ type e2eEnv struct {
 	leader  *leaderStub
 	stops   []func()
 	nPoints int
+	nLong   int
 }
 
 func (e *e2eEnv) close() {
@@ -160,6 +166,12 @@ func setupE2E(ctx *hk.RunCtx) (*e2eEnv, error) {
 			return nil, fmt.Errorf("create table: %v", err)
 		}
 	}
+	// a fine-resolution table whose series span thousands of periods: every row that a
+	// follower returns unflattened is tens of KB, i.e. several HTTP/2 frames
+	if err := env.db.CreateTable(&zenodb.TableOpts{Name: "t_long", RetentionPeriod: 3 * time.Hour, SQL: longTableSQL}); err != nil {
+		env.close()
+		return nil, fmt.Errorf("create table: %v", err)
+	}
 	addr, stop, err := serve(env.db)
 	if err != nil {
 		env.close()
@@ -210,6 +222,19 @@ func setupE2E(ctx *hk.RunCtx) (*e2eEnv, error) {
 		if err := env.db.Insert("in_emb", p.ts, p.dims, p.vals); err != nil {
 			env.close()
 			return nil, fmt.Errorf("embedded insert: %v", err)
+		}
+	}
+	// t_long: per key one point at the start and a few near the end of a 50-minute span
+	// (inserted before everything else in time, so the virtual clock ends where it did)
+	for k := 0; k < longKeys; k++ {
+		for j, back := range []int{longSpread, longSpread - 1 - k, 700 + k, k, 0} {
+			ts := e2eBase.Add(-time.Duration(back) * time.Second)
+			vals := map[string]interface{}{"a": float64(1000*k + j), "b": float64(k*j) / 2}
+			if err := env.db.Insert("in_long", ts, map[string]interface{}{"k": k}, vals); err != nil {
+				env.close()
+				return nil, fmt.Errorf("embedded insert: %v", err)
+			}
+			env.nLong++
 		}
 	}
 	report, err := ins.Close()
@@ -565,7 +590,7 @@ func runE2E(ctx *hk.RunCtx, only *uint64) error {
 	deadline := time.Now().Add(20 * time.Second)
 	seen := map[string]float64{}
 	for {
-		for _, t := range []string{"t_rpc", "t_emb"} {
+		for _, t := range []string{"t_rpc", "t_emb", "t_long"} {
 			a, fs := env.embedded("SELECT _points FROM " + t + " GROUP BY _")
 			_ = fs
 			total := 0.0
@@ -578,7 +603,7 @@ func runE2E(ctx *hk.RunCtx, only *uint64) error {
 			}
 			seen[t] = total
 		}
-		if seen["t_rpc"] == float64(env.nPoints) && seen["t_emb"] == float64(env.nPoints) {
+		if seen["t_rpc"] == float64(env.nPoints) && seen["t_emb"] == float64(env.nPoints) && seen["t_long"] == float64(env.nLong) {
 			break
 		}
 		if time.Now().After(deadline) {
@@ -589,10 +614,10 @@ func runE2E(ctx *hk.RunCtx, only *uint64) error {
 		time.Sleep(50 * time.Millisecond)
 	}
 
-	start, end := uint64(0), uint64(ctx.N)
+	start, end := uint64(ctx.From), uint64(ctx.From+ctx.N)
 	if only != nil {
 		start, end = *only, *only+1
-	} else {
+	} else if ctx.From == 0 {
 		for i := range fixedQueries {
 			e2eCase(ctx, env, fixedBase+uint64(i))
 		}
@@ -613,6 +638,11 @@ var fixedQueries = []string{
 	"SELECT COUNT(a) AS f0, AVG(b) AS f1, (SUM(a) / COUNT(b)) AS f2 FROM t_rpc GROUP BY period(2s)",
 	"SELECT IF(d = 'x', SUM(a)) AS f0, SHIFT(SUM(b), '-1s') AS f1, LOG2(MAX(c)) AS f2 FROM t_rpc GROUP BY d ORDER BY f0 DESC",
 	"SELECT * FROM t_rpc GROUP BY _",
+	// long series: the unflat answer of the remote-query stream has rows of ~27 KB each,
+	// equal in size, back to back (the shape a non-pushdown cluster query produces)
+	"SELECT sa AS f0 FROM t_long GROUP BY k",
+	"SELECT sa AS f0, mxb AS f1 FROM t_long GROUP BY k, period(1s)",
+	"SELECT sa AS f0 FROM t_long GROUP BY k, period(10s) ORDER BY f0 DESC",
 }
 
 func e2eCase(ctx *hk.RunCtx, env *e2eEnv, idx uint64) {
@@ -625,6 +655,14 @@ func e2eCase(ctx *hk.RunCtx, env *e2eEnv, idx uint64) {
 		}
 		sql = fixedQueries[idx-fixedBase]
 		ctx.Res.Hit("fixed-query")
+	} else if idx%8 == 7 {
+		// generated query over the long-series table (rows of tens of KB when unflattened)
+		sql = "SELECT " + hk.Pick(r, []string{"sa AS f0", "mxb AS f0", "sa AS f0, mxb AS f1", "mxb AS f0, sa AS f1, _points AS f2"}) + " FROM t_long"
+		if r.Chance(1, 3) {
+			sql += fmt.Sprintf(" WHERE k <> %d", r.Intn(longKeys))
+		}
+		sql += " GROUP BY k" + hk.Pick(r, []string{"", ", period(1s)", ", period(2s)"})
+		ctx.Res.Hit("query:long-series-table")
 	} else {
 		sql, ordered = genQuery(r, "t_rpc", ctx.Res.Hit)
 	}
@@ -709,6 +747,16 @@ func e2eCase(ctx *hk.RunCtx, env *e2eEnv, idx uint64) {
 		return
 	}
 	ctx.Res.Hit("unflat-compared")
+	for _, row := range es {
+		n := 0
+		for _, v := range row.vals {
+			n += len(v)
+		}
+		if n >= 16384 {
+			ctx.Res.Hit("unflat-row>=16KB (several HTTP/2 frames)")
+			break
+		}
+	}
 	if len(ru.fields) != len(ef) {
 		fail("unflat: number of fields differs", len(ru.fields), len(ef))
 		return
